@@ -356,6 +356,9 @@ def c03(ctx: Ctx) -> None:
     for c in r.callfunc:
         ne_ = [e for e in G.succ[c.id] if e.label != 'exc']
         w11 = must_pass(G, [], [r.round_branch, G.exit], r.set_, start_edges=ne_, edge_ok=_nonexc)
+        # ... also when something placed after the call (bookkeeping, logging arithmetic) raises and the handler meant for
+        # the function's failures takes it for one: the call has succeeded, a retry delivers its arguments a second time
+        w11 = w11 or must_pass(G, [], [r.round_branch], r.set_, start_edges=ne_)
         ctx.check('C03-S11', f'success of {norm(c.ast)} ends the round', G.loc(c), w11 is None and bool(r.set_),
                   'delivered arguments are delivered once', 'after a successful call the round can continue with the same set (the flag is set only '
                   'under a further condition): arguments already delivered are passed to the function again',
